@@ -186,3 +186,17 @@ Proof.
   unfold from_dna_string, from_acgt_bytes_scalar. f_equal. apply map_ext_in. intros c Hc.
   unfold char_as_u8. rewrite N.mod_small; [reflexivity |]. rewrite Forall_forall in Hb. now apply Hb.
 Qed.
+
+(* ------------------------------------------------------------------ the str constructor on ARBITRARY text (C14) *)
+(* one base per char, whatever the text: the table value of the char's low byte (`c as u8`); at an ASCII char that is
+   the table value of the char itself *)
+Theorem from_str_any text :
+  from_dna_string text = Some (ds_of_dna (map (fun c => ascii_base (char_as_u8 c)) text)).
+Proof.
+  assert (Hb : Forall (fun b => b < 256) (map char_as_u8 text)).
+  { apply Forall_forall. intros b Hb. apply in_map_iff in Hb as [c [<- _]]. unfold char_as_u8. apply N.mod_lt. discriminate. }
+  pose proof (from_acgt_scalar_spec _ Hb) as H. unfold from_acgt_bytes_scalar in H. rewrite !map_map in H.
+  exact H.
+Qed.
+Corollary from_str_any_len text d : from_dna_string text = Some d -> ds_len d = length text.
+Proof. rewrite from_str_any. intro H. inversion H. unfold ds_of_dna. cbn. now rewrite map_length. Qed.
